@@ -157,11 +157,16 @@ func setMech(fv reflect.Value, rnd *rand.Rand, id uint64, own string, bothAlias 
 	}
 }
 
-// innerValue builds the value an inner source behind the manglers returns.
+// innerValue builds the value an inner source behind the manglers returns:
+// the struct itself or - as Blank, the flag sources and most hand-written
+// sources do - a pointer to it (which of the two is a function of the id).
 func innerValue(t *dials.Type, id uint64, own string, both bool) reflect.Value {
-	v := reflect.New(t.Type()).Elem()
-	fillMech(v, id, own, both)
-	return v
+	p := reflect.New(t.Type())
+	fillMech(p.Elem(), id, own, both)
+	if id%2 == 1 {
+		return p
+	}
+	return p.Elem()
 }
 
 // nativeValue is the same logical data in the layout Dials asks an unwrapped
